@@ -81,8 +81,6 @@ def _idents(e: ast.AST) -> set[str]:
             out |= _tokens(x.id)
         elif isinstance(x, ast.Attribute):
             out |= _tokens(x.attr)
-        elif isinstance(x, ast.keyword) and x.arg:
-            pass
     return out
 
 
@@ -150,11 +148,6 @@ def _subst(fn: ast.AST, e: ast.AST, _seen: frozenset = frozenset()) -> ast.AST:
     return e
 
 
-def _params(fn: ast.AST) -> list[str]:
-    a = fn.args
-    return [x.arg for x in a.posonlyargs + a.args + a.kwonlyargs]
-
-
 def _arg_map(callee, c: ast.Call) -> dict[str, ast.expr]:
     """parameter name -> argument expression of call c (receiver not included)"""
     ps = callee.params
@@ -174,10 +167,6 @@ def _arg_map(callee, c: ast.Call) -> dict[str, ast.expr]:
 # ====================================================================================================
 # B. symbolic execution: a function body as one conditional expression
 # ====================================================================================================
-
-class _Opaque(Exception):
-    pass
-
 
 def _opaque(name: str) -> ast.Name:
     n = ast.Name(id=f'<{name}?>', ctx=ast.Load())
@@ -579,6 +568,46 @@ def _is_enum(ci) -> bool:
     return any(b.split('.')[-1] in ('Enum', 'IntEnum', 'StrEnum', 'Flag') for c in ci.mro() for b in c.base_exprs)
 
 
+class _Ctx:
+    """module context of interpreted code (stands in for a FunctionInfo: only `.module` is used)"""
+    def __init__(self, module):
+        self.module = module
+
+
+def _raw_index(m):
+    """functions / module constants of a module *as written* (the file's own text, before the loader's normalisation
+    passes): an evaluator needs no canonical spelling, and what it decides is then a statement about the source itself"""
+    idx = getattr(m, '_c13_raw', None)
+    if idx is not None:
+        return idx
+    fns, consts = {}, {}
+    try:
+        tree = ast.parse(m.source)
+    except SyntaxError:
+        tree = None
+
+    def walk(body, prefix):
+        for st in body:
+            if isinstance(st, (ast.FunctionDef, ast.AsyncFunctionDef)):
+                fns.setdefault(prefix + st.name, st)
+                walk(st.body, prefix + st.name + '.<locals>.')
+            elif isinstance(st, ast.ClassDef):
+                walk(st.body, prefix + st.name + '.')
+            elif isinstance(st, (ast.If, ast.Try, ast.With)):
+                walk(st.body, prefix)
+                walk(getattr(st, 'orelse', []), prefix)
+    if tree is not None:
+        walk(tree.body, '')
+        for st in tree.body:
+            if isinstance(st, ast.Assign) and len(st.targets) == 1 and isinstance(st.targets[0], ast.Name):
+                consts[st.targets[0].id] = st.value
+            elif isinstance(st, ast.AnnAssign) and isinstance(st.target, ast.Name) and st.value is not None:
+                consts[st.target.id] = st.value
+    idx = {'functions': fns, 'constants': consts}
+    m._c13_raw = idx
+    return idx
+
+
 class _Interp:
     BUDGET = 200000
 
@@ -586,9 +615,12 @@ class _Interp:
         self.prog = prog
         self.steps = 0
 
+    def raw_node(self, fi):
+        return _raw_index(fi.module)['functions'].get(fi.qualname, fi.node)
+
     # ---- calls -------------------------------------------------------------------------------------
     def call_fi(self, fi, args, kwargs=None, scopes=None):
-        return self.call_fn(_Fn(fi, fi.node, scopes or []), args, kwargs or {})
+        return self.call_fn(_Fn(fi, self.raw_node(fi), scopes or []), args, kwargs or {})
 
     def call_fn(self, fn: _Fn, args, kwargs):
         a = fn.node.args
@@ -633,17 +665,26 @@ class _Interp:
         return _Rec(ci.name, f, ci)
 
     def call_method(self, ci, name, recv, args, kwargs):
-        m = ci.find_method(name)
-        if m is None:
+        fn = None
+        for c in ci.mro():
+            node = _raw_index(c.module)['functions'].get(f'{c.name}.{name}')
+            if node is None and name in c.methods:
+                node = c.methods[name].node
+            if node is not None:
+                fn = _Fn(_Ctx(c.module), node, [])
+                break
+        if fn is None:
             raise _Undecidable(f'{ci.name}.{name}')
-        decs = m.decorators()
+        decs = [ast.unparse(d) for d in fn.node.decorator_list]
+        if any(d for d in decs if not any(k in d for k in ('staticmethod', 'classmethod'))):
+            raise _Undecidable(f'decorated method {ci.name}.{name}')
         if any('staticmethod' in d for d in decs):
-            return self.call_fi(m, args, kwargs)
+            return self.call_fn(fn, args, kwargs)
         if any('classmethod' in d for d in decs):
-            return self.call_fi(m, [_ClassRef(ci)] + list(args), kwargs)
+            return self.call_fn(fn, [_ClassRef(ci)] + list(args), kwargs)
         if isinstance(recv, _ClassRef):
-            return self.call_fi(m, args, kwargs)
-        return self.call_fi(m, [recv] + list(args), kwargs)
+            return self.call_fn(fn, args, kwargs)
+        return self.call_fn(fn, [recv] + list(args), kwargs)
 
     # ---- names -------------------------------------------------------------------------------------
     def lookup(self, name, fi, scopes):
@@ -651,13 +692,18 @@ class _Interp:
             if name in s:
                 return s[name]
         m = fi.module
+        raw = _raw_index(m)
+        if name in raw['functions']:
+            return _Fn(_Ctx(m), raw['functions'][name], [])
+        if name in raw['constants'] and name not in m.classes:
+            return self.eval(raw['constants'][name], _Ctx(m), [{}])
         if name in m.constants:
             return self.eval(m.constants[name], fi, [{}])
         r = self.prog.resolve_name(m, name)
         if r is not None and hasattr(r, 'methods'):
             return _ClassRef(r)
         if r is not None and hasattr(r, 'qualname'):
-            return _Fn(r, r.node, [])
+            return _Fn(r, self.raw_node(r), [])
         if isinstance(r, tuple) and r[0] == 'const':
             return self.eval(r[1].constants[r[2]], fi, [{}])
         tgt = m.imports.get(name)
@@ -1033,6 +1079,22 @@ def _data_year_exprs(add) -> set[str]:
     return out
 
 
+def _may_be_none(prog, fi, leaf) -> bool:
+    """is the attribute `leaf` (x.f) declared `T | None` / Optional on the class of x?  (unknown: yes)"""
+    from ..resolve import expr_class
+    if not isinstance(leaf, ast.Attribute):
+        return True
+    try:
+        ci = expr_class(prog, fi, leaf.value)
+    except Exception:
+        ci = None
+    ann = ci.all_fields().get(leaf.attr) if ci is not None else None
+    if ann is None:
+        return True
+    txt = ann.value if isinstance(ann, ast.Constant) and isinstance(ann.value, str) else norm(ann)
+    return 'None' in txt or 'Optional' in txt
+
+
 def _rule_r1(ctx, prog, dck):
     sites = geod_calls(prog, [dck])
     ctx.floor('C13-R1', len(sites), 1, 'geodesic call in _distance_check')
@@ -1125,6 +1187,9 @@ def _rule_r2(ctx, prog, add, flt, sch):
                         raws.append(leaf)
                         cf = role_conflict(p, leaf)
                         ok = _guarded_set(g, leaf)
+                        if not ok and not _may_be_none(prog, add, leaf):
+                            ctx.undecided('C13-R2', add, head, f'`{norm(leaf)}` is not declared optional: the defaulting of '
+                                          'open-ended dates has moved to where the entry is built')
                         ctx.ob('C13-R2', add, f'{head}: `{norm(leaf)}` only when it is set', ok and cf is None,
                                'the row\'s own date is used only under the test that it is present' if ok and cf is None else
                                (cf or f'`{norm(leaf)}` (None for an open-ended row) reaches {callee.name}() without a default: '
@@ -1210,7 +1275,26 @@ def _date_loop(prog, sch):
     return c, None, None
 
 
-def _schedule_rows(sch):
+def _row_values(prog, fi, row):
+    """value expressions of one inserted row, in the order the database driver sees them: a tuple/list display, or a
+    call of a NamedTuple class of the repository (positional and keyword arguments put into field order)"""
+    if isinstance(row, ast.Name):
+        row = single_def_value(fi.node, row.id)
+    if isinstance(row, (ast.Tuple, ast.List)):
+        return list(row.elts), None
+    if isinstance(row, ast.Call) and not any(isinstance(a, ast.Starred) for a in row.args) \
+            and all(k.arg for k in row.keywords):
+        ci = prog.resolve_class_expr(fi.module, row.func)
+        if ci is not None and any(b.split('.')[-1] == 'NamedTuple' for c in ci.mro() for b in c.base_exprs):
+            flds = list(ci.annotated_fields())
+            got = dict(zip(flds, row.args))
+            got.update({k.arg: k.value for k in row.keywords})
+            if set(got) == set(flds) and len(row.args) + len(row.keywords) == len(flds):
+                return [got[f] for f in flds], flds
+    return None, None
+
+
+def _schedule_rows(prog, sch):
     """(columns, value expressions, append call) of the schedules INSERT"""
     ins = [c for c in calls_in(sch.node) if call_name(c).endswith('executemany') and len(c.args) >= 2]
     if not ins:
@@ -1228,19 +1312,22 @@ def _schedule_rows(sch):
            and isinstance(c.func.value, ast.Name) and c.func.value.id == lst.id and len(c.args) == 1]
     if len(app) < 1:
         return None
-    row = app[0].args[0]
-    if isinstance(row, ast.Name):
-        row = single_def_value(sch.node, row.id)
-    if not isinstance(row, ast.Tuple):
+    vals, flds = _row_values(prog, sch, app[0].args[0])
+    if vals is None:
         return None
-    return cols, list(row.elts), app
+    return cols, vals, app, flds
 
 
 def _rule_r3(ctx, prog, add, flt, sch):
-    rows = _schedule_rows(sch)
+    rows = _schedule_rows(prog, sch)
     if rows is None:
         ctx.undecided('C13-R3', sch, 'schedules INSERT', 'append/executemany idiom not found')
-    cols, vals, app = rows
+    cols, vals, app, flds_ = rows
+    for col, f in zip(cols, flds_ or []):
+        cf = role_conflict(col, ast.Name(id=f, ctx=ast.Load()))
+        ctx.ob('C13-R3', sch, f'schedules.{col} <- row field {f}', cf is None and bool(_tokens(col) & _tokens(f)),
+               'row class field and column agree' if cf is None and _tokens(col) & _tokens(f) else
+               (cf or f'field `{f}` of the row class is stored in column {col}'), nontrivial=False)
     _, loop, loopvar = _date_loop(prog, sch)
     if loop is None:
         ctx.undecided('C13-R3', sch, 'per-day loop', 'no `for <date> in pd.date_range(...)` loop found')
@@ -1288,8 +1375,6 @@ def _rule_r3(ctx, prog, add, flt, sch):
             continue
         # the zone-aware instant is built per flight date from that date
         stale = [(n, r, z) for n, r, z in locs if loopvar not in names_in(r)]
-        outside = [n for n, r, z in locs if loopvar in names_in(r) and not any(
-            a is loop for o in [getattr(n, '_orig', None)] if o is not None for a in ancestors(o))]
         per_day = not stale
         ctx.ob('C13-R3', sch, f'{col}: zone applied to the wall-clock time of each flight date', per_day,
                f'the value localised in the {end} zone depends on the loop date `{loopvar}`' if per_day else
@@ -1302,9 +1387,7 @@ def _rule_r3(ctx, prog, add, flt, sch):
             lset = {id(n) for n, _, _ in locs}
             arith_after = [x for x in ast.walk(v) if isinstance(x, ast.BinOp) and isinstance(x.op, (ast.Add, ast.Sub))
                            and any(id(y) in lset for side in (x.left, x.right) for y in ast.walk(side))
-                           and not (isinstance(x.op, ast.Sub) and all(any(id(y) in lset for y in ast.walk(s)) or
-                                                                      not _mentions_time(s) for s in (x.left, x.right))
-                                    and _is_difference_of_instants(x, lset))]
+                           and not (isinstance(x.op, ast.Sub) and _is_difference_of_instants(x, lset))]
             ctx.ob('C13-R3', sch, f'{col}: zone attached after all wall-clock arithmetic', not arith_after,
                    'nothing is added to the instant once it carries its zone' if not arith_after else
                    'time is added to an instant that already carries its zone (elapsed-time arithmetic across a DST change)',
@@ -1370,10 +1453,6 @@ def _rule_r3(ctx, prog, add, flt, sch):
                    'complete' if ok else 'argument count differs: positions shift', line=c.lineno, nontrivial=False)
 
 
-def _mentions_time(e) -> bool:
-    return bool(_idents(e) & {'timedelta', 'hour', 'minute', 'hours', 'minutes', 'days', 'offset'})
-
-
 def _is_difference_of_instants(x, lset) -> bool:
     """`aware - aware` (an elapsed interval) is not wall-clock arithmetic on an aware instant"""
     return all(any(id(y) in lset for y in ast.walk(s)) for s in (x.left, x.right))
@@ -1426,7 +1505,7 @@ def _rule_r4(ctx, prog, wm, add, flt, sch):
         ctx.ob('C13-R4', add, 'instances attached to the flight just created', ok,
                f'flight_id={fid}' if ok else 'schedule rows are attached to a different flight id', line=cs_.lineno,
                nontrivial=False)
-    rows = _schedule_rows(sch)
+    rows = _schedule_rows(prog, sch)
     r = [n for n in walk_no_nested(sch.node) if isinstance(n, ast.Return)]
     lst = rows[2][0].func.value.id if rows else None
     ok = bool(r) and lst is not None and all(
@@ -1502,7 +1581,7 @@ def _rule_r5(ctx, prog, om, add):
     ctx.ob('C13-R5', rv, f'filter evaluated on {len(table)} documented field values', not bad,
            'rejects exactly: end-of-file marker, service V/U, stops != 0, operating N, non-aircraft equipment' if not bad else
            'the row filter no longer rejects exactly the documented rows: ' + '; '.join(bad[:4]))
-    ctx.floor('C13-R5', nrej + (0 if nrej else len(table)), 1, 'row rejection sites')
+    ctx.floor('C13-R5', len(table), 20, 'documented field values evaluated through is_row_valid')
     for n in walk_no_nested(add.node):
         if isinstance(n, ast.Return) and isinstance(n.value, ast.Constant) and n.value.value is False:
             atoms = _atoms([(t, pol) for t, pol, _ in guards_of(n)])
@@ -1523,3 +1602,318 @@ def _rule_r5(ctx, prog, om, add):
             ctx.ob('C13-R5', add, f'import skipped under {gs}', ok,
                    'unknown airport / implausible distance' if ok else 'row skipped for an undocumented reason',
                    line=n.lineno)
+
+
+def _rule_r6(ctx, prog, om, wm, sch):
+    c, loop, loopvar = _date_loop(prog, sch)
+    if c is None or loop is None:
+        ctx.undecided('C13-R6', sch, 'pd.date_range', 'no single per-day loop over one pd.date_range call')
+    kw = {k.arg: k.value for k in c.keywords if k.arg}
+    bad_kw = []
+    for k, v in kw.items():
+        if k in ('inclusive', 'closed') and not (isinstance(v, ast.Constant) and v.value in ('both', None)):
+            bad_kw.append(k)
+        if k == 'periods' and not (isinstance(v, ast.Constant) and v.value is None):
+            bad_kw.append(k)
+        if k == 'freq' and not (isinstance(v, ast.Constant) and v.value in ('D', '1D', None)):
+            bad_kw.append(k)
+    ends = [c.args[0] if len(c.args) > 0 else kw.get('start'), c.args[1] if len(c.args) > 1 else kw.get('end')]
+    if len(c.args) > 2:
+        bad_kw.append('periods')
+    slots = []
+    for e_ in ends:
+        fe = _subst(sch.node, e_) if e_ is not None else None
+        slots.append(_slot(fe.id) if isinstance(fe, ast.Name) and fe.id in sch.params else None)
+    ok = not bad_kw and slots == ['from', 'to']
+    ctx.ob('C13-R6', sch, norm(c), ok, 'inclusive daily range over the two effective dates' if ok else
+           f'date range is restricted or not from the effective-from to the effective-to date ({bad_kw or slots})', line=c.lineno)
+    ctl = ast.parse("pd.date_range(a, b, inclusive='left')").body[0].value
+    ctx.control('C13-R6', any(k.arg == 'inclusive' and k.value.value != 'both' for k in ctl.keywords),
+                'embedded date_range(..., inclusive=) is recognised')
+
+    daysp = [p for p in sch.params if 'days' in _tokens(p) or _tokens(p) == {'weekdays'}]
+    from_pandas = prog.module('types/time.py').func('DayOfWeek.from_pandas')
+
+    def atom_kind(t, pol):
+        """('weekday', operating?) / ('misordered', arrival precedes departure?) / None"""
+        if isinstance(t, ast.Compare) and len(t.ops) == 1:
+            op, left, right = t.ops[0], _subst(sch.node, t.left), _subst(sch.node, t.comparators[0])
+            if isinstance(op, (ast.In, ast.NotIn)) and isinstance(right, ast.Name) and right.id in daysp:
+                wd = False
+                if isinstance(left, ast.Call) and len(left.args) == 1 and norm(left.args[0]) == loopvar:
+                    try:
+                        wd = resolve_call(prog, sch, left) == from_pandas
+                    except Exception:
+                        wd = False
+                if isinstance(left, ast.Call) and call_name(left).split('.')[-1] == 'DayOfWeek' and len(left.args) == 1 \
+                        and norm(left.args[0]) == f'{loopvar}.isoweekday()':
+                    wd = True
+                if wd:
+                    return 'weekday', (isinstance(op, ast.In)) == pol
+            if isinstance(op, (ast.Lt, ast.Gt, ast.LtE, ast.GtE)):
+                def side(raw, full):
+                    for e_ in (raw, full):
+                        i = _idents(e_)
+                        a, d = bool(i & ANTONYMS[0][1]), bool(i & ANTONYMS[0][0])
+                        if a != d:
+                            return 'arr' if a else 'dep'
+                    return None
+                sl, sr = side(t.left, left), side(t.comparators[0], right)
+                if {sl, sr} == {'arr', 'dep'}:
+                    o = type(op)
+                    if sl == 'dep':  # dep OP arr  ->  arr OP' dep
+                        o = {ast.Lt: ast.Gt, ast.Gt: ast.Lt, ast.LtE: ast.GtE, ast.GtE: ast.LtE}[o]
+                    if o is ast.Lt:
+                        return 'misordered', pol
+                    if o is ast.GtE:
+                        return 'misordered', not pol
+        return None
+
+    def kinds(n):
+        out = []
+        for t, pol in _atoms([(t, pol) for t, pol, _ in guards_of(n, stop=loop)]):
+            out.append((atom_kind(t, pol), norm(t), pol))
+        return out
+
+    rows = _schedule_rows(prog, sch)
+    apps = rows[2] if rows else []
+    conts = [n for n in ast.walk(loop) if isinstance(n, (ast.Continue, ast.Break))
+             and next((a for a in ancestors(n) if isinstance(a, (ast.For, ast.While))), None) is loop]
+    seen = set()
+    warn_fi = wm.functions.get('WritableDatabase._warn')
+    warns = [w for w in calls_in(loop) if (warn_fi is not None and resolve_call(prog, sch, w) == warn_fi or 'warn' in _tokens(call_name(w)))
+             and any(norm(a).endswith('TIME_MISORDERING') for a in list(w.args) + [k.value for k in w.keywords])]
+    for n in conts:
+        ks = kinds(n)
+        if isinstance(n, ast.Break) or len(ks) != 1 or ks[0][0] not in (('weekday', False), ('misordered', True)):
+            ctx.ob('C13-R6', sch, f'instance skipped under {[(k[1], k[2]) for k in ks]}', False,
+                   'an instance inside the effective range on an operating day is skipped for another reason '
+                   '(only a non-operating weekday, or an arrival that precedes the departure, drops an instance)',
+                   line=n.lineno)
+            continue
+        seen.add(ks[0][0][0])
+        if ks[0][0][0] == 'weekday':
+            ctx.ob('C13-R6', sch, 'skip when the weekday is not an operating day', True, ks[0][1], line=n.lineno)
+    for a_ in apps:
+        ks = kinds(a_)
+        unknown = [k for k in ks if k[0] not in (('weekday', True), ('misordered', False))]
+        for k in ks:
+            if k[0] in (('weekday', True), ('misordered', False)):
+                seen.add(k[0][0])
+        ctx.ob('C13-R6', sch, 'every remaining date yields exactly one instance', len(apps) == 1 and not unknown,
+               'appended whenever the day operates and the instants are in order' if len(apps) == 1 and not unknown else
+               (f'append is conditional on {[(k[1], k[2]) for k in unknown]}' if unknown else 'append is duplicated'),
+               line=a_.lineno)
+    for what in ('weekday', 'misordered'):
+        if what not in seen:
+            ctx.ob('C13-R6', sch, f'{what} skip present', False, f'the {what} rule is gone or changed form',
+                   line=sch.node.lineno)
+    if 'misordered' in seen:
+        good = [w for w in warns if ('misordered', True) in [k[0] for k in kinds(w)]
+                and all(k[0] in (('misordered', True), ('weekday', True)) for k in kinds(w))]
+        ctx.ob('C13-R6', sch, 'mis-ordered instance dropped only with a warning', bool(good),
+               'warning recorded on the branch that drops the instance' if good else 'instance dropped silently',
+               line=(good[0].lineno if good else loop.lineno))
+    tm = prog.module('types/time.py')
+    r = [n for n in walk_no_nested(from_pandas.node) if isinstance(n, ast.Return)]
+    p = from_pandas.params[-1]
+    members = {k: const_value(v) for k, v in tm.cls('DayOfWeek').class_assignments().items() if v is not None}
+    numbering = [members.get(k) for k in ('MONDAY', 'TUESDAY', 'WEDNESDAY', 'THURSDAY', 'FRIDAY', 'SATURDAY', 'SUNDAY')] == list(range(1, 8))
+    ok = len(r) == 1 and isinstance(r[0].value, ast.Call) and len(r[0].value.args) == 1 \
+        and call_name(r[0].value) in ('cls', 'DayOfWeek') \
+        and norm(_subst(from_pandas.node, r[0].value.args[0])) in (f'{p}.isoweekday()', f'{p}.weekday() + 1', f'{p}.dayofweek + 1')
+    ctx.ob('C13-R6', from_pandas, 'weekday numbering Monday=1..Sunday=7 via isoweekday()', ok and numbering,
+           'enum values agree with isoweekday' if ok and numbering else 'weekday numbering and conversion disagree')
+
+    # ---- row decoding, evaluated -----------------------------------------------------------------------------------
+    fr = om.func('CSVEntry.from_csv_row')
+    ci = om.cls('CSVEntry')
+    it = _Interp(prog)
+
+    def decode(**over):
+        it.steps = 0
+        try:
+            return it.call_fi(fr, [_ClassRef(ci), _row(**over), 7])
+        except _Raised as r_:
+            return f'raises {type(r_.exc).__name__}'
+
+    def field(rec, name):
+        if not isinstance(rec, _Rec):
+            return ('<row not imported>' if rec is None else rec)
+        if name not in rec.fields:
+            raise _Undecidable(f'CSVEntry has no field {name}')
+        return rec.fields[name]
+
+    def show(v):
+        if isinstance(v, (set, frozenset)):
+            return '{' + ', '.join(sorted(show(x) for x in v)) + '}'
+        if isinstance(v, _Rec):
+            return v.cls + '(' + ', '.join(f'{k}={show(x)}' for k, x in v.fields.items()) + ')' if 'value' not in v.fields \
+                else str(v.fields['value'])
+        return repr(v)
+
+    def table(title, rows_, good, bad_why):
+        """rows_: [(overrides, field, expected-predicate, expected text)]"""
+        bad = []
+        try:
+            for over, name, pred, exp in rows_:
+                rec = decode(**over)
+                got = field(rec, name)
+                if not isinstance(rec, _Rec):
+                    bad.append(f'a row with {over} is not imported at all (the conversion raises and the blanket `except` '
+                               f'drops the row without a warning); it says {name}={exp}')
+                elif not pred(got):
+                    bad.append(f'{over} gives {name}={show(got)}, the row says {exp}')
+        except _Undecidable as u:
+            ctx.undecided('C13-R6', fr, title, f'row decoding is not evaluable: {u}')
+        ctx.ob('C13-R6', fr, f'{title} ({len(rows_)} field values evaluated)', not bad, good if not bad else
+               f'{bad_why}: ' + '; '.join(bad[:3]) + (f' (+{len(bad) - 3} more)' if len(bad) > 3 else ''))
+
+    try:
+        base = decode()
+    except _Undecidable as u:
+        ctx.undecided('C13-R6', fr, 'row decoding', f'not evaluable: {u}')
+    ctx.ob('C13-R6', fr, 'a plain direct, operating, aircraft-flown row is imported', isinstance(base, _Rec),
+           'from_csv_row yields an entry' if isinstance(base, _Rec) else
+           f'from_csv_row yields {"no entry" if base is None else base} for a row none of the documented reasons applies to '
+           '(an exception inside the conversion is swallowed by the blanket `except` and the row silently dropped)')
+    if not isinstance(base, _Rec):
+        return
+
+    def dayset(S):
+        return lambda v: isinstance(v, (set, frozenset)) and all(isinstance(x, _Rec) and x.cls == 'DayOfWeek' for x in v) \
+            and {x.fields['value'] for x in v} == set(S)
+    rows_ = []
+    for n in range(8):
+        for S in itertools.combinations(range(1, 8), n):
+            for enc in (''.join(str(d) if d in S else ' ' for d in range(1, 8)), ''.join(str(d) for d in S)):
+                rows_.append(({'days': enc}, 'days', dayset(S), '{' + ', '.join(map(str, S)) + '}'))
+    table('operating days parsed as digits 1..7', rows_, 'every weekday set, positional and compact encoding',
+          'operating-day parsing changed')
+    arr = {'P': -1, ' ': 0, '': 0, '0': 0, '1': 1, '2': 2}
+    table("arrival day offset: 'P' = -1, blank = 0, else the digit",
+          [({'arrday': k}, 'arrday', (lambda w: lambda v: type(v) is int and v == w)(w), str(w)) for k, w in arr.items()],
+          'P, blank, 0, 1, 2', 'arrival day offset decoding changed')
+    dates = {'00000000': None, '99999999': None, '20190305': _dt.date(2019, 3, 5), '20191124': _dt.date(2019, 11, 24),
+             '20200229': _dt.date(2020, 2, 29), '20181028': _dt.date(2018, 10, 28), '20191231': _dt.date(2019, 12, 31)}
+    table('open-ended markers map to None; YYYYMMDD decoded',
+          [({f: k}, f, (lambda w: lambda v: v == w and type(v) is type(w))(w), str(w)) for f in ('efffrom', 'effto') for k, w in dates.items()],
+          'effective dates', 'effective-date decoding changed')
+
+    def tod(h, m):
+        return lambda v: isinstance(v, _Rec) and v.cls == 'TimeOfDay' and v.fields == {'hour': h, 'minute': m}
+    times = {'0905': (9, 5), '1130': (11, 30), '0000': (0, 0), '2359': (23, 59), '1737': (17, 37), '0010': (0, 10)}
+    table('HHMM local times decoded; departure/arrival keep their roles',
+          [({f: k}, f, tod(*w), f'{w[0]:02d}:{w[1]:02d}') for f in ('deptim', 'arrtim') for k, w in times.items()] +
+          [({}, 'depapt', lambda v: v == 'ATL', 'ATL'), ({}, 'arrapt', lambda v: v == 'LAX', 'LAX'),
+           ({'fltno': ''}, 'fltno', lambda v: v == 0, '0'), ({'fltno': '0042'}, 'fltno', lambda v: v == 42, '42'),
+           ({'fltno': '1621'}, 'fltno', lambda v: v == 1621, '1621')],
+          'times, end points, flight number', 'row decoding changed')
+
+
+def _rule_r7(ctx, prog, add, dck):
+    rej = None
+    for n in walk_no_nested(dck.node):
+        if isinstance(n, ast.Return) and isinstance(n.value, ast.Constant) and n.value.value is False:
+            atoms = [(_subst(dck.node, t), pol) for t, pol in _atoms([(t, pol) for t, pol, _ in guards_of(n)])]
+            if any('abs' in _idents(t) or 'pct' in _idents(t) or 'percent' in _idents(t) for t, _ in atoms):
+                rej = (n, atoms)
+    given = next((p for p in dck.params if {'given', 'distance'} <= _tokens(p) or {'stated', 'distance'} <= _tokens(p)), None)
+    gc = None
+    ok = False
+    if rej is not None and given is not None:
+        absd = pctd = pos = False
+        for t, pol in rej[1]:
+            if not (isinstance(t, ast.Compare) and len(t.ops) == 1 and pol):
+                continue
+            l, op, r = t.left, t.ops[0], t.comparators[0]
+            if isinstance(op, ast.Lt):
+                l, r, op = r, l, ast.Gt()
+            if not isinstance(op, ast.Gt):
+                continue
+            if isinstance(r, ast.Name) and r.id in dck.params:
+                thr = _tokens(r.id)
+                if 'abs' in thr and isinstance(l, ast.Call) and call_name(l) == 'abs' and isinstance(l.args[0], ast.BinOp) \
+                        and isinstance(l.args[0].op, ast.Sub) and given in names_in(l.args[0]):
+                    absd = True
+                if ('percent' in thr or 'relative' in thr) and isinstance(l, ast.BinOp) and isinstance(l.op, ast.Div):
+                    num = l.left
+                    if isinstance(num, ast.BinOp) and isinstance(num.op, ast.Mult) and 100 in (const_value(num.left), const_value(num.right)) \
+                            and any(isinstance(x, ast.Call) and call_name(x) == 'abs' and given in names_in(x) for x in ast.walk(num)) \
+                            and given not in names_in(l.right):
+                        pctd = True
+            if isinstance(l, ast.Name) and l.id == given and const_value(r) == 0:
+                pos = True
+        ok = absd and pctd and pos
+    ctx.ob('C13-R7', dck, 'dropped only if absolute AND relative difference exceed their thresholds', ok,
+           '|stated - geodesic| > abs threshold and 100*|…|/geodesic > percent threshold, for a stated distance > 0' if ok else
+           'plausibility rule changed (a plausible row can be dropped)',
+           line=(rej[0].lineno if rej else dck.node.lineno))
+    a = dck.node.args
+    dflt = {x.arg: const_value(d) for x, d in zip((a.posonlyargs + a.args)[-len(a.defaults):], a.defaults)} if a.defaults else {}
+    dflt.update({x.arg: const_value(d) for x, d in zip(a.kwonlyargs, a.kw_defaults) if d is not None})
+    ok = dflt == {'zero_distance_threshold_km': 1.0, 'abs_difference_threshold_km': 50.0,
+                  'relative_difference_threshold_percent': 10.0}
+    ctx.ob('C13-R7', dck, f'thresholds {dflt}', ok, '±10 %, ignoring < 50 km' if ok else 'documented thresholds changed',
+           nontrivial=False)
+    dc = [c for c in calls_in(add.node) if resolve_call(prog, add, c) == dck]
+    ok = False
+    if dc and given is not None:
+        arg = _arg_map(dck, dc[0]).get(given)
+        if arg is not None:
+            fa = _subst(add.node, arg)
+            ok = isinstance(fa, ast.BinOp) and isinstance(fa.op, ast.Mult) and \
+                {'STATUTE_MILES_TO_KM'} & {norm(fa.left), norm(fa.right)} and 'distance' in (_idents(fa.left) | _idents(fa.right))
+            thr = [p for p in _arg_map(dck, dc[0]) if 'threshold' in _tokens(p)]
+            ok = bool(ok) and not thr
+    ctx.ob('C13-R7', add, 'stated distance converted from statute miles to km', bool(ok),
+           'distance * STATUTE_MILES_TO_KM, documented thresholds' if ok else
+           'stated distance is compared in the wrong unit (or with other thresholds)')
+
+
+def _rule_r8(ctx, prog):
+    # every airport the shipped data names is known to the importer (a row is skipped as "unknown airport" only when the
+    # data really lack that code: the reader admits every row that carries an IATA code — the historical airports of the
+    # patch file are records of type `closed`)
+    am = prog.module('utils/airports.py')
+    rf = am.func('AirportsData._read_file')
+    comps = [x for x in ast.walk(rf.node) if isinstance(x, (ast.DictComp, ast.ListComp, ast.GeneratorExp))
+             and any(norm(g.iter) == 'reader' for g in x.generators)]
+    loops = [x for x in ast.walk(rf.node) if isinstance(x, ast.For) and norm(x.iter) == 'reader']
+    ctx.floor('C13-R8', len(comps) + len(loops), 1, 'row loops in AirportsData._read_file')
+    for x in comps:
+        ifs = [norm(i) for g in x.generators for i in g.ifs]
+        ok = ifs == ["row['iata_code']"]
+        ctx.ob('C13-R8', rf, f'airport rows kept when {ifs}', ok, 'every row with an IATA code is read' if ok else
+               ('rows with an IATA code are filtered out of the airport table: schedule rows touching those airports '
+                '(the patch file\'s historical airports are of type `closed`) are dropped as "unknown airport" although the '
+                'shipped data name them'), line=x.lineno)
+    for lp in loops:
+        esc = [y for y in ast.walk(lp) if isinstance(y, ast.Continue)]
+        conds = [norm(t) for y in esc for t, pol, o in guards_of(y) if any(a is lp for a in ancestors_(o))]
+        ok = all('iata_code' in c_ and 'type' not in c_ for c_ in conds)
+        ctx.ob('C13-R8', rf, f'airport rows skipped when {conds}', ok, 'only rows without an IATA code are skipped' if ok else
+               'rows with an IATA code are skipped', line=lp.lineno)
+
+
+def run(ctx):
+    prog = ctx.prog
+    om = prog.module(OAG)
+    wm = prog.module(WDB)
+    add = om.func('OAGDatabase.add')
+    sch = wm.func('WritableDatabase._add_schedule')
+    flt = wm.func('WritableDatabase._add_flight')
+    dck = wm.func('WritableDatabase._distance_check')
+    _rule_r1(ctx, prog, dck)
+    _rule_r2(ctx, prog, add, flt, sch)
+    _rule_r3(ctx, prog, add, flt, sch)
+    _rule_r4(ctx, prog, wm, add, flt, sch)
+    _rule_r5(ctx, prog, om, add)
+    _rule_r6(ctx, prog, om, wm, sch)
+    _rule_r7(ctx, prog, add, dck)
+    _rule_r8(ctx, prog)
+    ctx.assumptions += ['time-zone arithmetic (zoneinfo, DST) and pandas date_range semantics are trusted',
+                        'identifier names carry their role',
+                        'row decoding is decided on the documented field values (all weekday sets; arrival-day codes P/blank/0-2; '
+                        'the two open-ended markers and a table of dates and times), by the checker\'s own evaluator of the '
+                        'extracted functions']
